@@ -33,3 +33,113 @@ Example ex_sorted :
              (match table_sort Qmerge None ex_tables with Ok t => Some t | _ => None end)
   = Some ([mkE 0 10 2 0; mkE 5 10 2 1; mkE 0 10 3 2; mkE 0 5 4 1], [0; 1; 2; 2], [-1; -1; -1; 2], [2; 4; 4]).
 Proof. vm_compute. reflexivity. Qed.
+
+(* ---------------------------------------------------------------------- *)
+(* do_site_correct: a chain 0 -> 1 -> 2 (node 2 the root), four mutations of one site with row ids 5..8 in a table of 10 mutations                       *)
+(* ---------------------------------------------------------------------- *)
+From TskVerif Require Import C07.MutParentsProofs.
+
+Definition ex_parent : list Z := [1; 2; -1].
+Definition ex_par (v : Z) : Z := if v =? 0 then 1 else if v =? 1 then 2 else -1.
+
+Example ex_do_site_hypotheses :
+  arr_is ex_parent ex_par /\
+  (forall v, 0 <= v < zlen ex_parent ->
+     ex_par v = NULL \/ (0 <= ex_par v < zlen ex_parent /\ (fun x => x) v < (fun x => x) (ex_par v))) /\
+  (forall v, 0 <= v < zlen ex_parent -> (fun x => x) v <= 2) /\
+  arr_is (repeat NULL 3) (fun _ => NULL) /\ arr_is (repeat NULL 10) (fun _ => NULL).
+Proof.
+  assert (C3 : forall v, 0 <= v < 3 -> v = 0 \/ v = 1 \/ v = 2) by (intros; lia).
+  split; [|split; [|split; [|split]]].
+  - intros v Hv. destruct (C3 v Hv) as [-> | [-> | ->]]; reflexivity.
+  - intros v Hv. destruct (C3 v Hv) as [-> | [-> | ->]]; vm_compute;
+      first [ now left | right; repeat split; discriminate ].
+  - intros v Hv. change (zlen ex_parent) with 3 in Hv. lia.
+  - intros v Hv. destruct (C3 v Hv) as [-> | [-> | ->]]; reflexivity.
+  - intros v Hv. change (zlen (repeat NULL 10)) with 10 in Hv.
+    assert (v = 0 \/ v = 1 \/ v = 2 \/ v = 3 \/ v = 4 \/ v = 5 \/ v = 6 \/ v = 7 \/ v = 8 \/ v = 9) by lia.
+    repeat (destruct H as [-> | H]; [reflexivity|]). subst; reflexivity.
+Qed.
+
+(* rows 5..8 on nodes 2, 1, 0, 0: the root mutation has no parent; the one on node 1 finds
+   the root's; the first on node 0 finds the one on node 1; the second on node 0 takes the
+   earlier one on the same node *)
+Example ex_do_site_result :
+  do_site 4 ex_parent [2; 1; 0; 0] 5 (repeat NULL 3) (repeat NULL 10)
+  = Ok (repeat NULL 3, [-1; -1; -1; -1; -1; -1; 5; 6; 7; -1]).
+Proof. vm_compute. reflexivity. Qed.
+
+(* a child listed before its parent on another node is reported *)
+Example ex_do_site_error :
+  do_site 4 ex_parent [2; 0; 0; 1] 5 (repeat NULL 3) (repeat NULL 10) = Err E_MUTATION_PARENT_AFTER_CHILD.
+Proof. vm_compute. reflexivity. Qed.
+
+(* the whole mutation loop under one tree: two sites, six mutations *)
+Definition ex_muts2 : list mutation :=
+  [mkMut 0 2 7 None [] []; mkMut 0 1 7 None [] []; mkMut 0 0 7 None [] []; mkMut 0 0 7 None [] [];
+   mkMut 1 1 7 None [] []; mkMut 1 1 7 None [] []].
+Example ex_sites_loop :
+  sites_loop 4 ex_parent 10 [mkSite 1 [] []; mkSite 3 [] []] 0 ex_muts2 0 (repeat NULL 3) (repeat NULL 6)
+  = Ok (([], 2), ([], 6), (repeat NULL 3, [-1; 0; 1; 2; -1; 4])).
+Proof. vm_compute. reflexivity. Qed.
+Example ex_muts2_sorted : Sorted (fun a b => m_site a <= m_site b) ex_muts2 /\
+  site_block ex_muts2 1 = [mkMut 1 1 7 None [] []; mkMut 1 1 7 None [] []] /\ site_first ex_muts2 1 = 4.
+Proof. split; [repeat constructor; simpl; lia | split; reflexivity]. Qed.
+
+(* ---------------------------------------------------------------------- *)
+(* mutation_parents_nearest: a valid, sorted, indexed table                  *)
+(* ---------------------------------------------------------------------- *)
+From TskVerif Require Import C07.SweepProofs.
+
+Definition ex_valid : tables :=
+  mkTables 10
+    [mkNode 1 0 (-1) (-1) []; mkNode 0 1 (-1) (-1) []; mkNode 0 2 (-1) (-1) []]
+    [mkE 0 10 1 0; mkE 0 6 2 1] [] [0; 0; 0]
+    [mkSite 3 [] []; mkSite 7 [] []]
+    ex_muts2
+    [] [] [0] [] [] (Some ([0; 1], [1; 0])).
+
+Example ex_valid_for_parents :
+  valid_for_parents ex_valid [mkE 0 10 1 0; mkE 0 6 2 1] [mkE 0 6 2 1; mkE 0 10 1 0].
+Proof.
+  constructor.
+  - intros e [<- | [<- | []]]; vm_compute; repeat split; congruence.
+  - intros a b [<- | [<- | []]] [<- | [<- | []]] Hc Ho; try reflexivity; vm_compute in Hc; discriminate.
+  - exists [0; 1], [1; 0]. split; [reflexivity|]. split; repeat constructor.
+  - repeat constructor; simpl; lia.
+  - repeat constructor; simpl; lia.
+  - intro e; simpl; tauto.
+  - intro e; simpl; tauto.
+  - repeat constructor; simpl; lia.
+  - intros s [<- | [<- | []]]; simpl; lia.
+  - repeat constructor; simpl; lia.
+  - intros m Hm. simpl in Hm. unfold ex_muts2 in Hm.
+    repeat (destruct Hm as [<- | Hm]; [vm_compute; repeat split; congruence|]). destruct Hm.
+Qed.
+
+(* site 0 (position 3) is under the chain 0 -> 1 -> 2; at site 1 (position 7) node 1 is a root *)
+Example ex_valid_parents :
+  option_map (fun t => map m_parent (t_muts t))
+             (match compute_mutation_parents ex_valid with Ok t => Some t | _ => None end)
+  = Some [-1; 0; 1; 2; -1; 4].
+Proof. vm_compute. reflexivity. Qed.
+
+(* partial sort without edge metadata: row 0 stays, rows 1.. are sorted *)
+Definition ex_nomd : tables :=
+  mkTables 10
+    [mkNode 1 0 (-1) (-1) []; mkNode 1 0 (-1) (-1) []; mkNode 0 1 (-1) (-1) []; mkNode 0 2 (-1) (-1) []]
+    [mkE 0 10 3 2; mkE 0 10 2 1; mkE 0 10 2 0] [] (repeat 0 4) [] [] [] [] [0] [] [] None.
+Example ex_partial_sort :
+  t_emd ex_nomd = [] /\ t_eoff ex_nomd = repeat 0 (S (length (t_edges ex_nomd))) /\
+  option_map t_edges (match sort_edges Qmerge 1 ex_nomd with Ok t => Some t | _ => None end)
+  = Some [mkE 0 10 3 2; mkE 0 10 2 0; mkE 0 10 2 1].
+Proof. repeat split; vm_compute; reflexivity. Qed.
+
+(* build_index on the table above recomputes exactly the index used there *)
+Example ex_build_index :
+  option_map t_index
+    (match build_index Qmerge (set_sites_muts (set_index ex_valid None) (t_sites ex_valid)
+                                 (map (fun m => mut_set_parent m NULL) ex_muts2))
+     with Ok t => Some t | _ => None end)
+  = Some (Some ([0; 1], [1; 0])).
+Proof. vm_compute. reflexivity. Qed.
